@@ -333,9 +333,15 @@ func c05GSLB(r *vk.Run, races *bal_slb.C05Races, idx *int) {
 				if !out.Horizon && out.Steps > maxSteps {
 					maxSteps = out.Steps
 				}
+				errs := map[string]bool{}
 				for _, c := range calls {
 					if c.Err != nil {
-						oc += ":" + c.Err.Error()
+						errs[c.Err.Error()] = true
+					}
+				}
+				for _, e := range []string{"BK_NO_BACKEND", "BK_CROSS_RETRY_BALANCE", "BK_NO_SUB_CLUSTER_CROSS", "BK_NO_SUB_CLUSTER", "BK_RETRY_TOOMANY", "GSLB_BLACKHOLE"} {
+					if errs[e] {
+						oc += ":" + e
 					}
 				}
 				r.Outcome(class + ":" + oc)
